@@ -190,10 +190,11 @@ func (gen *generator) irArrayConst(t types.Type, old *ast.ArrayConst) (*constant
 	}
 	oldElems := old.Elems()
 	if len(oldElems) == 0 {
-		typ := types.NewArray(0, typ.ElemType)
-		if !t.Equal(typ) {
-			return nil, errors.Errorf("array type mismatch; expected %q, got %q", typ, t)
+		want := types.NewArray(0, typ.ElemType)
+		if !t.Equal(want) {
+			return nil, errors.Errorf("array type mismatch; expected %q, got %q", want, t)
 		}
+		// The constant has the type it is written with (which may be a named type).
 		return &constant.Array{Typ: typ}, nil
 	}
 	elems := make([]constant.Constant, len(oldElems))
@@ -215,6 +216,10 @@ func (gen *generator) irCharArrayConst(t types.Type, old *ast.CharArrayConst) (*
 	c := constant.NewCharArray(data)
 	if !t.Equal(c.Typ) {
 		return nil, errors.Errorf("character array type mismatch; expected %q, got %q (unquoted_data=`%s`, orig_data=`%s`)", c.Typ, t, data, old.Val().Text())
+	}
+	// The constant has the type it is written with (which may be a named type).
+	if typ, ok := t.(*types.ArrayType); ok {
+		c.Typ = typ
 	}
 	return c, nil
 }
